@@ -585,3 +585,154 @@ pub fn max_len_for(k: usize, cap: usize) -> usize {
         }
     }
 }
+
+// ---------------------------------------------------------------------------------------------
+// Post-processing of generated specs
+
+/// Copies the regex of an earlier rule of the same set into a later one (so that several rules
+/// match the same lexemes with different contexts / actions), driven by the tape.
+pub fn duplicate_rules(spec: &mut Spec, tape: &[u32]) {
+    let mut t = Tape::new(tape);
+    for item in spec.items.iter_mut() {
+        if let Top::RuleSet { items, .. } = item {
+            let idxs: Vec<usize> = items
+                .iter()
+                .enumerate()
+                .filter(|(_, i)| matches!(i, Inner::Rule(_)))
+                .map(|(k, _)| k)
+                .collect();
+            if idxs.len() >= 2 && t.next(2) == 1 {
+                let a = idxs[t.next(idxs.len() as u32 - 1) as usize];
+                let later: Vec<usize> = idxs.iter().copied().filter(|k| *k > a).collect();
+                let b = later[t.next(later.len() as u32) as usize];
+                let re = match &items[a] {
+                    Inner::Rule(r) => r.re.clone(),
+                    _ => unreachable!(),
+                };
+                if let Inner::Rule(r) = &mut items[b] {
+                    r.re = re;
+                }
+            }
+        }
+    }
+    // unnamed specs: top-level rules
+    let idxs: Vec<usize> = spec
+        .items
+        .iter()
+        .enumerate()
+        .filter(|(_, i)| matches!(i, Top::Rule(_)))
+        .map(|(k, _)| k)
+        .collect();
+    if idxs.len() >= 2 && t.next(2) == 1 {
+        let a = idxs[t.next(idxs.len() as u32 - 1) as usize];
+        let later: Vec<usize> = idxs.iter().copied().filter(|k| *k > a).collect();
+        let b = later[t.next(later.len() as u32) as usize];
+        let re = match &spec.items[a] {
+            Top::Rule(r) => r.re.clone(),
+            _ => unreachable!(),
+        };
+        if let Top::Rule(r) = &mut spec.items[b] {
+            r.re = re;
+        }
+    }
+}
+
+fn factor_in(re: &mut Re, t: &mut Tape, pct: u32, defs: &mut Vec<(String, Re)>, prefix: &str, depth: u32) {
+    // `$` must stay in tail position textually, so subtrees containing it are not factored out.
+    let can = !re.has_eoi() && !matches!(re, Re::Var(_));
+    if can && defs.len() < 4 && t.next(100) < pct {
+        let name = format!("{}{}", prefix, defs.len());
+        let body = std::mem::replace(re, Re::Var(name.clone()));
+        defs.push((name, body));
+        return;
+    }
+    if depth > 8 {
+        return;
+    }
+    match re {
+        Re::Star(a) | Re::Plus(a) | Re::Opt(a) => factor_in(a, t, pct, defs, prefix, depth + 1),
+        Re::Cat(a, b) | Re::Alt(a, b) | Re::Diff(a, b) => {
+            factor_in(a, t, pct, defs, prefix, depth + 1);
+            factor_in(b, t, pct, defs, prefix, depth + 1);
+        }
+        _ => {}
+    }
+}
+
+/// Names random subtrees (of rules and right contexts) with `let`: rule-set-local ones are called
+/// l0, l1, … in every rule set (the same names are bound differently in different rule sets),
+/// top-level ones t0, t1, … . Bindings are placed before their uses.
+pub fn factor_lets(spec: &mut Spec, tape: &[u32], pct: u32) {
+    let mut t = Tape::new(tape);
+    let mut top_defs: Vec<(String, Re)> = vec![];
+    for item in spec.items.iter_mut() {
+        match item {
+            Top::RuleSet { items, .. } => {
+                let mut local: Vec<(String, Re)> = vec![];
+                for i in items.iter_mut() {
+                    if let Inner::Rule(r) = i {
+                        let use_top = t.next(2) == 0;
+                        if use_top {
+                            factor_in(&mut r.re, &mut t, pct, &mut top_defs, "t", 0);
+                            if let Some(c) = &mut r.ctx {
+                                factor_in(c, &mut t, pct, &mut top_defs, "t", 0);
+                            }
+                        } else {
+                            factor_in(&mut r.re, &mut t, pct, &mut local, "l", 0);
+                            if let Some(c) = &mut r.ctx {
+                                factor_in(c, &mut t, pct * 2, &mut local, "l", 0);
+                            }
+                        }
+                    }
+                }
+                let mut new_items: Vec<Inner> = local.into_iter().map(|(n, re)| Inner::Let(n, re)).collect();
+                new_items.append(items);
+                *items = new_items;
+            }
+            Top::Rule(r) => {
+                factor_in(&mut r.re, &mut t, pct, &mut top_defs, "t", 0);
+                if let Some(c) = &mut r.ctx {
+                    factor_in(c, &mut t, pct, &mut top_defs, "t", 0);
+                }
+            }
+            _ => {}
+        }
+    }
+    // nested: a later top-level binding may use an earlier one
+    let mut nested: Vec<(String, Re)> = vec![];
+    for (n, mut body) in top_defs {
+        if t.next(4) == 0 {
+            let mut inner: Vec<(String, Re)> = vec![];
+            if let Re::Cat(a, _) | Re::Alt(a, _) = &mut body {
+                factor_in(a, &mut t, 60, &mut inner, &format!("n{}_", nested.len()), 0);
+            }
+            nested.extend(inner);
+        }
+        nested.push((n, body));
+    }
+    let mut new_items: Vec<Top> = nested.into_iter().map(|(n, re)| Top::Let(n, re)).collect();
+    new_items.append(&mut spec.items);
+    spec.items = new_items;
+}
+
+/// A class with many scattered pieces (more than the guard-chain threshold of the generated code).
+pub fn many_piece_set(tape: &[u32], n: usize) -> Re {
+    let mut t = Tape::new(tape);
+    let mut items = vec![];
+    let mut x = 0x100 + t.next(0x400);
+    for _ in 0..n {
+        let len = t.next(4);
+        let a = char::from_u32(x).unwrap_or('a');
+        let b = char::from_u32(x + len).unwrap_or(a);
+        if len == 0 {
+            items.push(SetItem::C(a));
+        } else {
+            items.push(SetItem::R(a, b));
+        }
+        x += len + 2 + t.next(40);
+        if (0xD7F0..0xE010).contains(&x) {
+            x = 0xE010;
+        }
+    }
+    Re::Set(items)
+}
